@@ -28,7 +28,13 @@ def mixed_streams(ctx, rng, n):
     nbad = 0
     for j in range(rng.randint(2, 4)):
       r = rng.random()
-      if r < 0.45 or (j == 1 and nbad == 0 and False):
+      if proto == 'pickle' and r < 0.2:
+        # malformed entries between well-formed ones inside one frame: the frame delivers the well-formed ones
+        dps = [wiresys.gen_datapoint(rng) for _ in range(rng.randint(1, 3))]
+        fr, what = wiresys.mixed_pickle_frame(rng, dps)
+        frames.append(dict(bytes=fr, kind='good', dps=dps, what=what))
+        nbad += 1
+      elif r < 0.45:
         if proto == 'pickle':
           dps = [wiresys.gen_datapoint(rng)]
           fr = wiresys.pickle_frame(dps, 2)
@@ -70,7 +76,7 @@ def run(ctx):
   c01.model(ctx)
   wm = wiresys.WireModules(ctx.scratch)
   streams = mixed_streams(ctx, ctx.rng, ctx.pick(60, 300))
-  traces, origins = c01.run_streams(ctx, wm, streams, ctx.pick(40, 120), ctx.rng)
+  traces, origins = c01.run_streams(ctx, wm, streams, ctx.pick(40, 120), ctx.rng, with_res=True)
   # byte-level mutants
   good = c01.good_streams(ctx, ctx.rng, ctx.pick(30, 200))
   for proto, frames in good:
